@@ -59,6 +59,7 @@ def plan(tier, seed):
             sp["stride"] = 40
             sp["offset"] = seed % 40
         shards.append(sp)
+    shards.append({"kind": "gtests"})
     for sp in shards:
         sp["tier"] = tier
     return shards
@@ -206,6 +207,9 @@ def run_history(case, acc, post_edit=None, entry_ops=False, prop="C14"):
 
 def run_shard(spec):
     k = spec["kind"]
+    if k == "gtests":
+        from .graphbase import run_gtests_shard
+        return run_gtests_shard(PROPERTY)
     if k == "histories" or (k == "single" and spec["case"].get("kind") == "history"):
         attach.install(("stage", "table", "edit"))
         acc = ShardAcc(PROPERTY)
